@@ -77,7 +77,8 @@ def _check_node_link_graph_ot(repo: Repo, rep: Report, ot, with_zero):
                 w = JsonWorld(cfg, ot, ch, all_methods["DynGraph"], all_methods)
                 ip = CtorInterp(w, ot)
                 nodes = ListObj([
-                    DictObj({Const(idkey): NodeV("N1"), Const("color"): Opaque("attr-value")}),
+                    DictObj({Const(idkey): NodeV("N1"), Const("color"): Opaque("attr-value"), Const("source"): Opaque("attr-value"),
+                             Const("time"): Opaque("attr-value")}),          # attributes that merely share a name with a link key
                     DictObj({Const(idkey): NodeV("N2")}),
                     DictObj({Const("size"): Opaque("attr-value")}),          # no id: positional default
                 ])
@@ -115,7 +116,7 @@ def _check_node_link_graph_ot(repo: Repo, rep: Report, ot, with_zero):
                                 "fallback)" % data_directed if data_directed is not None else "the data is silent and directed=%s was requested" % arg_directed),
                                 witness=wit2)
                 adds = [o for o in val.other if o[0] == "add_node"]
-                want_nodes = [(NodeV("N1"), {"color"}), (NodeV("N2"), set()), (Const(2), {"size"})]   # an entry without id is named by its position
+                want_nodes = [(NodeV("N1"), {"color", "source", "time"}), (NodeV("N2"), set()), (Const(2), {"size"})]   # an entry without id is named by its position
                 got_nodes = [(a[1][0] if a[1] else None, set(a[2])) for a in adds]
                 if got_nodes != want_nodes:
                     ok = False
